@@ -279,11 +279,21 @@ func TestZZVerifC18Holder(t *testing.T) {
 	InitModule()
 	h := zzC18NewHolder(t)
 
-	var steps, bad, installs, rejects, resyncs int
+	var steps, bad, installs, rejects, resyncs, truncated int
 	zzReadNDJSON(t, "VERIF_IN", func(line []byte) {
 		st := &zzC18Step{}
 		if err := json.Unmarshal(line, st); err != nil {
 			t.Fatalf("bad step: %v", err)
+		}
+
+		if bad >= 40 {
+			// Enough reproduced disagreements: the rest of the walk is not
+			// taken (each one costs two new servers), only counted.
+			if !st.Reset {
+				truncated++
+			}
+
+			return
 		}
 
 		if st.Reset {
@@ -354,6 +364,7 @@ func TestZZVerifC18Holder(t *testing.T) {
 
 	w.put(map[string]any{
 		"kind": "summary", "steps": steps, "bad": bad, "installs": installs, "rejects": rejects, "resyncs": resyncs,
+		"truncated": truncated,
 	})
 }
 
